@@ -10,6 +10,7 @@ From Flocq Require Import Core.Core IEEE754.BinarySingleNaN IEEE754.Binary IEEE7
 From SK Require Import Base.Prelude Base.F64 Base.F64Proofs.
 From SK Require Import Spec.Bins Spec.BinsProofs Spec.ASketch Store.Any Store.AnyProofs Stat.Summary
                        Sketch.Sketch Sketch.SketchProofs Sketch.RefineProofs Wire.Proto.
+From SK Require Export Wire.ProtoB.
 From SK Require Stat.SummaryProofs Wire.ProtoProofs Store.DenseProofs Store.CollapsingProofs.
 Import ListNotations.
 
@@ -915,15 +916,6 @@ End Wrapper.
 (* ================================================================== *)
 (** * Part 4: Layer B MergeWithProto / ToProto / FromProto             *)
 (* ================================================================== *)
-(* store.MergeWithProto (and model/driver.ml merge_with_proto): AddWithCount for every map entry, then
-   for every contiguous count at offset + k; [None] = panic *)
-Definition st_merge_with_proto (s : store) (p : pb_store) : option store := st_add_list s (store_content p).
-(* on what proto.Unmarshal hands over (a Go map: last duplicate key wins) *)
-Definition pb_go_view (p : pb_store) : pb_store :=
-  {| bin_counts := pb_map_view (bin_counts p); contiguous_counts := contiguous_counts p;
-     contiguous_offset := contiguous_offset p |}.
-Definition st_merge_with_proto_go (s : store) (p : pb_store) : option store := st_merge_with_proto s (pb_go_view p).
-
 (* int32 indexes: the map keys, and the first and last index of the contiguous block *)
 Definition pb_idx_ok (p : pb_store) : Prop :=
   Forall (fun kv => idx_ok (fst kv)) (bin_counts p) /\
@@ -987,11 +979,6 @@ Proof.
 Qed.
 
 (* ---- ToProto of the five kinds ---- *)
-Definition st_to_proto (s : store) : option pb_store :=
-  match s with
-  | SD d => option_map pb_of_dense_proto (Dense.to_proto_d d)
-  | _ => option_map (fun sl => to_proto_sparse (snd sl)) (st_foreach s)
-  end.
 Definition st_proto_form (s : store) : pb_store :=
   match s with SD _ => to_proto_dense (st_abs s) | _ => to_proto_sparse (st_abs s) end.
 
@@ -1059,32 +1046,6 @@ Proof.
 Qed.
 
 (* ---- the sketch ---- *)
-Definition pb_of_mapid (m : mapid) : pb_mapping := {| pm_gamma := mk_gamma m; pm_offset := mk_off m; pm_interp := mk_kind m |}.
-Definition mapid_of_pb (pm : pb_mapping) : mapid := {| mk_kind := pm_interp pm; mk_gamma := pm_gamma pm; mk_off := pm_offset pm |}.
-(* DDSketch.ToProto *)
-Definition sk_to_proto (s : sketch) : option pb_sketch :=
-  match st_to_proto (sk_pos s), st_to_proto (sk_neg s) with
-  | Some p, Some n => Some {| ps_mapping := Some (pb_of_mapid (sk_map s)); ps_pos := Some p; ps_neg := Some n;
-                              ps_zero := q2f (sk_zero s) |}
-  | _, _ => None
-  end.
-(* FromProtoWithStoreProvider (as model/driver.ml kfromproto): interpolation NONE / LINEAR / CUBIC, gamma > 1,
-   then MergeWithProto into new stores of the requested kinds *)
-Definition sk_from_proto (kp kn : kind) (msg : pb_sketch) : result sketch :=
-  match ps_mapping msg with
-  | None => RErr EMissingMapping
-  | Some pm =>
-    let i := pm_interp pm in
-    if negb ((i =? 0) || (i =? 1) || (i =? 3))%N then RErr EUnknownMapping
-    else if fle (pm_gamma pm) f64_one then RErr EBadGamma
-    else
-      let fill k o := match o with Some sp => st_merge_with_proto_go (st_new k) sp | None => Some (st_new k) end in
-      match fill kp (ps_pos msg), fill kn (ps_neg msg) with
-      | Some p, Some n => ROk {| sk_map := mapid_of_pb pm; sk_pos := p; sk_neg := n; sk_zero := f2q (ps_zero msg);
-                                 sk_stats := None |}
-      | _, _ => RPanic
-      end
-  end.
 Definition mapid_valid (m : mapid) : Prop :=
   (mk_kind m = 0 \/ mk_kind m = 1 \/ mk_kind m = 3)%N /\ fle (mk_gamma m) f64_one = false.
 
